@@ -23,7 +23,8 @@ THEOREMS = ['C15.quotes_table_ok', 'C15.bool_table_ok', 'C15.lists_table_ok', 'C
             'C15.reject_atomic', 'C15.reject_atomic_setValue', 'C15.getSpecific_sound', 'C15.override_local',
             'C15.follow_general', 'C15.fresh_child_inherits', 'C15.reset_network_follows', 'C15.file_always_loads',
             'C15.string_variants_roundtrip', 'C15.name_unescape_escape', 'C15.name_escape_roundtrip_partial',
-            'C15.name_escape_counterexample', 'C15.reset_channel_follows', 'C15.source_constants_ok']
+            'C15.name_escape_counterexample', 'C15.reset_channel_follows', 'C15.source_constants_ok',
+            'C15.socket_timeout_verdict', 'C15.socket_timeout_reject_atomic']
 TRUSTED = ['Lean 4.33.0 kernel; axioms ⊆ {propext, Classical.choice, Quot.sound}',
            'harness/extractors/registry.py (constants of src/registry.py, utils/str.py, class inventory → Gen/Registry.lean)',
            'harness/c15.py generators + canonicalisation; hex line protocol',
@@ -1240,6 +1241,111 @@ def stream_live(I, R, r, n_hist):
     try: grp.unregister('vtvar')
     except Exception: pass
 
+
+# ------------------------------------------------------------------------------------------
+# every registered variable of the live registry: a rejected set() leaves it exactly as it was
+# ------------------------------------------------------------------------------------------
+SWEEP_TEXTS = ['', ' ', '0', '1', '-1', '3', '7', '49', '50', '51', '100', '1.5', '0.5', '-2.5', '1e3', 'nan', 'inf', 'on', 'off', 'toggle', 'True',
+               'x', 'foo bar', '#chan', '#a,b', 'a!b@c', '*!*@*', '"', "'", '""', "'a' 'b'", 'm/x/', '/[/', 's/a/b/', '$foo', '{}', '[1]', '{"a": 1}',
+               'é', ',', 'a,b', ' a ', '\\', 'a\\', '١', 'plain', 'exact', 'host', 'sqlite3', 'libera', '[]', '<>', '()', ':', '%s', '$nick',
+               '127.0.0.1', '::1', 'irc.example.org:6667', 'socks5://x', 'http://x/', '../x', '/tmp/vt', 'a' * 300, 'INFO', 'DEBUG', 'en', 'fr', '1 2 3']
+SWEEP_SKIP = ('supybot.directories',)       # moving the bot's directories around is not a registry question
+
+def _snap(node):
+    def safe(f):
+        try: return ('ok', f())
+        except Exception as e: return ('raises', type(e).__name__)
+    safe(node)      # a value older than the last open_registry re-reads its cached text on the first call: settle that first
+    return (repr(observe(node)), node._wasSet, safe(lambda: str(node)), safe(node.serialize))
+
+def stream_sweep(I, R, r, per_node):
+    b = live_bot(); conf = b.conf; reg = b.registry
+    nodes = [(name, node) for (name, node) in conf.supybot.getValues(getChildren=True)
+             if hasattr(node, 'value') and not name.lower().startswith(SWEEP_SKIP)]
+    def attempt(name, node, text, context):
+        before = _snap(node); v0 = node.value; ws0 = node._wasSet
+        import contextlib, io
+        with contextlib.redirect_stdout(io.StringIO()):      # some validators print advice (ircdb: --allow-default-owner)
+            try:
+                node.set(text); raised = None
+            except Exception as e:
+                raised = type(e).__name__
+        after = _snap(node)
+        cname = type(node).__name__
+        if raised is not None:
+            ok = (after == before)
+            R.add_oracle(Case({'op': 'sweep', 'name': name, 'class': cname, 'text': text, 'context': context}, oracle_ok=ok, kind='sweep',
+                              oracle_msg='' if ok else '%s.set(%r) raised %s but %s (%s) changed from %r to %r%s' % (
+                                  name, text, raised, name, cname, before, after, (' after ' + repr(context)) if context else ''),
+                              tags=('sweep', 'sweep-rejected', 'sweep-' + cname)))
+        else:
+            R.add_oracle(Case({'op': 'sweep', 'name': name, 'class': cname, 'text': text, 'context': context}, oracle_ok=True, kind='sweep',
+                              tags=('sweep', 'sweep-accepted', 'sweep-' + cname)))
+        return raised is None, v0, ws0
+    def restore(node, v0, ws0):
+        try: reg.Value._setValue(node, v0, inherited=not ws0)
+        except Exception: node.value = v0; node._wasSet = ws0
+    # round 0: every variable on its own
+    for name, node in nodes:
+        for text in r.sample(SWEEP_TEXTS, per_node):
+            acc, v0, ws0 = attempt(name, node, text, [])
+            restore(node, v0, ws0)
+    # rounds 1..: validators may look at OTHER variables: move every numeric variable to a common level first
+    numeric = [(name, node) for name, node in nodes if isinstance(node.value, (int, float)) and not isinstance(node.value, bool)]
+    for level in ('50', '1'):
+        saved = []; context = []
+        for name, node in numeric:
+            v0 = node.value; ws0 = node._wasSet
+            try:
+                node.set(level); context.append([name, level]); saved.append((node, v0, ws0))
+            except Exception:
+                restore(node, v0, ws0)
+        for name, node in numeric:
+            for text in ['0', '1', '3', '7', '49', '50', '51', '-1', '2.5', 'x']:
+                acc, v0, ws0 = attempt(name, node, text, context)
+                restore(node, v0, ws0)
+        for node, v0, ws0 in reversed(saved):
+            restore(node, v0, ws0)
+    import socket; socket.setdefaulttimeout(None)
+    # the cross-variable validator that is inside the model: conf.SocketTimeout against supybot.drivers.poll
+    for pv in ('1.0', '5', '2.5', '0.75', '50'):
+        poll = conf.supybot.drivers.poll; p0 = poll.value
+        poll.set(pv)
+        pn, pd = float(poll.value).as_integer_ratio()
+        for text in ['0', '1', '2', '3', '4', '5', '6', '49', '50', '51', '-1', ' 7 ', '1_0', 'x', '']:
+            node = conf.SocketTimeout(60, 'h')
+            cur = node.value
+            res = I.set_text(node, text)
+            ok = not (res == 'error' and node.value != cur)
+            R.add(Case({'op': 'val_set', 'class': 'sock/%d/%d' % (pn, pd), 'current': cur, 'text': text}, impl=res, oracle_ok=ok, kind='sweep',
+                       oracle_msg='' if ok else 'SocketTimeout.set(%r) with drivers.poll=%s was rejected but the value changed from %r to %r' % (text, pv, cur, node.value),
+                       tags=('sock-timeout', 'sock-' + res.split('\t')[0])),
+                  'val_set\tsock/%d/%d\t%s\t%s\t%s' % (pn, pd, PR(''), enc_val(cur), wire.enc(text)))
+        reg.Value._setValue(poll, p0, inherited=False)
+    socket.setdefaulttimeout(None)
+
+def class_inventory():
+    """value classes of registry.py / conf.py and what they override, read from the generated table"""
+    try:
+        src = open(os.path.join(os.path.dirname(os.path.dirname(os.path.abspath(__file__))), 'lean', 'LimnoriaModel', 'Gen', 'Registry.lean'), encoding='utf-8').read()
+    except OSError:
+        return {}
+    def table(nm):
+        m = re.search(r'def %s : List \(String × List String\) :=\n  (\[.*\])\n' % nm, src)
+        return re.findall(r'\("([^"]+)", \[([^\]]*)\]\)', m.group(1)) if m else []
+    def names(nm):
+        m = re.search(r'def %s : List String :=\n  \[(.*)\]\n' % nm, src)
+        return re.findall(r'"([^"]+)"', m.group(1)) if m else []
+    modelled = set(names('modelledClasses')) | set(names('modelledConfClasses'))
+    out = {'modelled_in_lean': sorted(modelled), 'not_modelled_overriding_set_or_setValue': [], 'not_modelled_other': []}
+    for tab in ('registryOverrides', 'confOverrides'):
+        for cname, ms in table(tab):
+            ms = re.findall(r'"([^"]+)"', ms)
+            if cname in modelled: continue
+            (out['not_modelled_overriding_set_or_setValue'] if ('set' in ms or 'setValue' in ms) else out['not_modelled_other']).append(
+                '%s%s (%s)' % ('conf.' if tab == 'confOverrides' else 'registry.', cname, ', '.join(ms) or 'inherits everything'))
+    return out
+
 # ------------------------------------------------------------------------------------------
 # corpus: minimised past failures and finding witnesses (run first)
 # ------------------------------------------------------------------------------------------
@@ -1339,6 +1445,7 @@ def explore(ctx, scale, seed_stream='c15'):
     stream_oracle_only(I, R, r, 1500 * scale)
     stream_tree(I, R, r, 250 * scale)
     stream_live(I, R, r, 40 * min(scale, 10))
+    stream_sweep(I, R, r, 6 if scale == 1 else 25)
     return I, R
 
 def run(ctx):
@@ -1356,7 +1463,7 @@ def run(ctx):
                             trusted_base=TRUSTED, finding_status=witness_status(I),
                             assumptions=['Python asserts enabled', 'strings are valid Unicode scalar sequences (no lone surrogates)',
                                          'integers have fewer digits than sys.get_int_max_str_digits()'],
-                            t0=ctx.t0)
+                            extra={'value_class_inventory': class_inventory()}, t0=ctx.t0)
 
 def replay(ctx, path):
     """re-run a replay file on the implementation and print what happens now"""
@@ -1420,6 +1527,18 @@ def replay(ctx, path):
             out = bot.feed(b, 'own!u@h', b.irc.nick, cmd)
             print(cmd, '->', [m.args[-1] for m in out])
             print('    ', {('%s/%s' % (n, c)): node.getSpecific(network=n, channel=c)() for n in (None, b.irc.network) for c in (None, '#x', '#y')})
+    elif op == 'sweep':
+        b = live_bot(); conf = b.conf
+        def find(nm):
+            for n_, nd in conf.supybot.getValues(getChildren=True):
+                if n_ == nm: return nd
+        for nm, tx in inp.get('context', []):
+            try: find(nm).set(tx)
+            except Exception as e: print('context', nm, tx, 'raised', e)
+        node = find(inp['name']); before = _snap(node)
+        try: node.set(inp['text']); res = 'accepted'
+        except Exception as e: res = 'raised %s' % type(e).__name__
+        print('now: %s.set(%r) %s; before %r; after %r' % (inp['name'], inp['text'], res, before, _snap(node)))
     elif op == 'oracle_only':
         OC = dict((nm, (mk, how)) for nm, mk, _, how in oracle_classes(I))
         mk, how = OC[inp['class']]
